@@ -124,7 +124,6 @@ package dns
 // printed form (RFC 1035 5.1 character-string): the text has exactly the width of the octets' escape units - a quote or
 // a backslash takes two characters (a backslash and the octet itself), an unprintable octet the four of \DDD, any
 // other octet one - so no octet that needs an escape is copied raw and none is escaped needlessly
-//@   assume at "consumed := 0" empty: ghost(s, "len") == 0
 //@   ensures width: ret2 == nil ==> len(ret0) == txtsum(msg, off + 1, msg[off]) [C01 C05]
 //@   loop 1 invariant width: ghost(s, "len") + (rangeindex + 1 - consumed) == txtsum(msg, off, rangeindex + 1) && (consumed == 0 ==> ghost(s, "len") == 0) && -1 <= rangeindex && rangeindex < l [C01 C05]
 //@   callsite "WriteByte" esc: arg1 == 92 || arg1 == b [C01 C05]
